@@ -92,7 +92,7 @@ REACH = ["honest_attestation", "wrong_subject_refused", "wrong_subject_with_own_
          "expired_registration_refused", "just_below_300s_attested", "replay_refused",
          "tampered_disclosure_refused", "third_party_attestation_refused", "valid_attestation_stored",
          "missing_request_unpermitted_refused", "missing_request_beyond_index_limited",
-         "long_chain_missing_tokens_served", "authority_restarted", "two_pseudonyms_one_manager"]
+         "long_chain_missing_tokens_served", "authority_restarted", "two_pseudonyms_one_manager", "subject_sent_self_signed_attestation_first"]
 
 NODES = ("A", "S1", "S2", "T")
 IPS = {"A": "1.0.0.1", "S1": "1.0.0.2", "S2": "1.0.0.3", "T": "1.0.0.4"}
@@ -216,7 +216,7 @@ def m_forged_attest(r) -> list:  # noqa: ANN001
     ops = [_reg("A", s, h, name), _req(s, "A", h, name), _sleep(1.0)]
     for _ in range(r.randrange(1, 4)):
         ops.append({"op": "attest_forge", "node": r.choice(("T", "T", "S2", "S1")), "to": s,
-                    "mode": r.choice(("forward", "garbage", "third_key", "own", "own_random"))})
+                    "mode": r.choice(("forward", "garbage", "third_key", "own", "own_random", "self_md"))})
     return [*ops, _sleep(1.0)]
 
 
@@ -310,6 +310,12 @@ FIXED = (
      ("honest_attestation",)),
     # S1 and S2 are two pseudonyms of ONE user (one IdentityManager, as the CommunicationManager sets them up): what the user
     # opened to A on pseudonym S1 says nothing about pseudonym S2
+    ("self_attestation_first", [{"op": "adv", "node": "S1", "h": 0, "name": "n0"}, _reg("A", "S1", 0, "n0"),
+                                {"op": "attest_forge", "node": "S1", "to": "A", "mode": "self_md"}, _sleep(0.5),
+                                {"op": "disclose", "node": "S1", "to": "A", "h": 0}, _sleep(1.0),
+                                {"op": "replay", "node": "S1", "to": "A", "k": 0}, _sleep(1.0),
+                                {"op": "replay", "node": "S1", "to": "A", "k": 0}, _sleep(1.0)],
+     ("honest_attestation", "subject_sent_self_signed_attestation_first")),
     ("shared_cross_pseudonym", [_adv_many("S1", 12), _adv_many("S2", 7), _reg("A", "S1", 0, "n0"), _req("S1", "A", 0, "n0"),
                                 _sleep(2.0), {"op": "req_missing", "node": "A", "to": "S2", "known": 0}, _sleep(1.0),
                                 {"op": "req_missing", "node": "A", "to": "S1", "known": 3}, _sleep(1.0)],
@@ -336,7 +342,7 @@ def _random_op(r) -> dict:  # noqa: ANN001
         return {"op": "req_missing", "node": r.choice(NODES), "to": s, "known": r.choice((0, 1, 2, 8, 40))}
     if k == 7:
         return {"op": "attest_forge", "node": r.choice(("T", "S1", "S2")), "to": r.choice(NODES),
-                "mode": r.choice(("forward", "garbage", "third_key", "own", "own_random"))}
+                "mode": r.choice(("forward", "garbage", "third_key", "own", "own_random", "self_md"))}
     if k == 8:
         return {"op": "disclose", "node": s, "to": r.choice(("A", "T")), "h": r.randrange(NH), "atts": r.random() < 0.6}
     if k == 9:
@@ -967,6 +973,12 @@ def execute(case: dict) -> dict:  # noqa: C901, PLR0915
             target = m.chain_md[to][-1] if m.chain_md[to] else sha3(b"c17-nothing")
             if mode == "forward" and captured_att:
                 raw = captured_att[-1]
+            elif mode == "self_md":
+                # the sender attests its OWN newest metadata and hands that to the peer (which stores any attestation validly signed
+                # by its sender)
+                own_md = m.chain_md[node.name][-1] if m.chain_md[node.name] else sha3(b"c17-nothing")
+                raw = Attestation(own_md, private_key=node.my_peer.key).get_plaintext_signed()
+                c.probe("subject_sent_self_signed_attestation_first")
             elif mode == "own":
                 raw = Attestation(target, private_key=node.my_peer.key).get_plaintext_signed()
             elif mode == "own_random":
